@@ -8,6 +8,7 @@ import (
 	"hash/fnv"
 	"os"
 	"sort"
+	"sync/atomic"
 	"syscall"
 )
 
@@ -82,7 +83,11 @@ func (c *Ctx) Mine(i int) bool { return c.NShards <= 1 || i%c.NShards == c.Shard
 func (c *Ctx) Count(name string, n int64) { c.Res.Counters[name] += n }
 
 // Progress records the case about to be executed so that a fatal crash of the worker is attributable.
+// ProgressTicks counts Progress calls (read by the worker's hang watchdog).
+var ProgressTicks atomic.Int64
+
 func (c *Ctx) Progress(s string) {
+	ProgressTicks.Add(1)
 	if c.progress == nil {
 		return
 	}
